@@ -536,6 +536,49 @@ def analyse(fn, roles, prog, lib_roles=None, want_kinds=("W", "R"), callsite_goa
                 unit = {"i8*": 1, "i16*": 2, "i32*": 4}.get(i["args"][0].get("ty"), 1)
                 measured[root] = ((A.lin({"k": "v", "id": i["id"]}) + Lin.const(1)).scale(unit), "measured:" + api_base(i["callee"]), i)
 
+    # a length that is the merge of several measurements of the same pointer (one per branch: `l = given ? strnlen(p, n) : strnlen(p, MAX)`),
+    # possibly with the constant 0 for a branch that measures nothing: the merged value is a lower bound of what may be read wherever the
+    # merge dominates (without the terminator when a 0 is among the alternatives: on that path nothing is known about the pointer)
+    meas_calls = {}
+    first_meas = {r: v[2] for r, v in measured.items()}
+    merged_width = {}
+    for b in fn.j["blocks"]:
+        for i in b["insts"]:
+            if i["op"] in ("call", "invoke") and i.get("callee") in RETBOUND and "id" in i and i.get("args"):
+                root, off = A.ptr(i["args"][0])
+                if root is not None and off is not None and off.is_const() and off.c == 0 and caps.cap(root)[0] is None:
+                    meas_calls[i["id"]] = (root, {"i8*": 1, "i16*": 2, "i32*": 4}.get(i["args"][0].get("ty"), 1), i)
+
+    def _strip_int(o):
+        while o.get("k") == "v" and fn.defs.get(o["id"], {}).get("op") in ("zext", "sext", "trunc"):
+            o = fn.defs[o["id"]]["ops"][0]
+        return o
+    for b in fn.j["blocks"]:
+        for i in b["insts"]:
+            if i["op"] != "phi" or not i["ty"].startswith("i") or i["ty"] == "i1":
+                continue
+            def _leaves(o, depth=0):
+                o = _strip_int(o)
+                d_ = fn.defs.get(o.get("id")) if o.get("k") == "v" else None
+                if d_ is not None and d_["op"] == "phi" and depth < 3 and d_["id"] != i["id"]:
+                    out_ = []
+                    for y in d_["incoming"]:
+                        out_.extend(_leaves(y["v"], depth + 1))
+                    return out_
+                return [o]
+            ins = []
+            for x in i["incoming"]:
+                ins.extend(_leaves(x["v"]))
+            ms = [meas_calls[o["id"]] for o in ins if o.get("k") == "v" and o["id"] in meas_calls]
+            zeros = [o for o in ins if o.get("k") == "c" and o.get("v") == 0]
+            if len(ms) >= 1 and len(ms) + len(zeros) == len(ins) and len({m[0] for m in ms}) == 1 and (len(ms) > 1 or zeros):
+                root, unit = ms[0][0], ms[0][1]
+                if root in first_meas and any(first_meas[root] is m[2] for m in ms) and len(ins) > merged_width.get(root, 0):
+                    # replace the single-measurement entry (which dominates nothing behind the merge) by the merged one; the widest merge wins
+                    l = A.lin({"k": "v", "id": i["id"]})
+                    merged_width[root] = len(ins)
+                    measured[root] = ((l + (Lin.const(0) if zeros else Lin.const(1))).scale(unit), measured[root][1], i)
+
     def cap_of(root, inst):
         cap, role = caps.cap(root)
         if cap is None and inst is not None and root in measured and measured[root][2] is not inst and fn.inst_dominates(measured[root][2], inst):
